@@ -1,6 +1,196 @@
-(** C08 -- placeholder while the development is being built. *)
-From Coq Require Import List Arith.
-From Verif Require Import C08.Base C08.Arity C08.Spec.
-Theorem C08_placeholder : True.
-Proof. exact I. Qed.
-Print Assumptions C08_placeholder.
+(** C08 -- Calls bind arguments to the right arity however the call is made.
+    This file contains only statements, each closed by [exact], and Print Assumptions.
+
+    Vocabulary (C08/Base.v, Spec.v, Arity.v): a signature [s] has fixed arities [fixed s] and an
+    optional variadic arity with [m] fixed parameters; [wf_sig] is the analyzer's acceptance
+    test.  A callable [c] is a compiled fn or a (nested) `partial` of one, [base c] its
+    signature and [pargs c] the pre-supplied arguments.  A call supplies [lead ++ tail]; the
+    tail may be lazy and infinite ([tlen t = None]).  [bind_ok s args t r] is the property:
+    the chosen arity ([choose]: exact fixed arity first, else the variadic one) runs with its
+    parameters bound in order, the rest parameter nil iff there is no surplus and otherwise
+    the surplus in order; no arity matches => arity error.  [call], [apply], [arities],
+    [recur_step], [run_kind] are the model of generator.py / runtime.py as they are. *)
+From Coq Require Import List Arith Bool NArith.
+Import ListNotations.
+From Verif Require Import Gen.Tables C08.Base C08.Arity C08.Spec C08.Proofs C08.ProofsRecur C08.TableProofs.
+
+(** Obligations on what the translator re-derives from the source on every run *)
+Theorem C08_table_dispatch_cmp : arity_dispatch_cmp = 0%N.
+Proof. exact TableProofs.dispatch_cmp_ok. Qed.
+Theorem C08_table_shapes :
+  arity_apply_to_shape = 1%N /\ arity_apply_shape = 1%N /\ arity_unwrap_shape = 1%N
+  /\ arity_partial_shape = 1%N /\ arity_trampoline_shape = 1%N /\ arity_analyzer_rule = 1%N.
+Proof. exact TableProofs.shapes_ok. Qed.
+
+(** the chosen arity is a matching one; every matching arity is the chosen one except at the
+    overlap of a fixed arity with the variadic arity (no surplus), where the fixed one runs;
+    nothing is chosen iff nothing matches *)
+Theorem C08_chosen_arity_unique : forall s n,
+  wf_sig s = true ->
+  (forall ar, choose s n = Some ar -> matches s n ar)
+  /\ (forall ar, matches s n ar ->
+        exists ar', choose s n = Some ar' /\
+          (ar' = ar \/ exists m, ar = ARest m /\ ar' = AFix m /\ n = Some m /\ In m (fixed s)))
+  /\ (choose s n = None -> forall ar, ~ matches s n ar).
+Proof. exact (fun s n H => conj (fun ar => choose_matches s n ar)
+                                (conj (fun ar => matches_choose s n ar H) (choose_none s n))). Qed.
+
+(** ALL signatures, ALL (nested) partials, ALL call shapes, ALL argument counts *)
+Theorem C08_bind_correct : forall (A : Type) (s : sig) (c : callee A),
+  wf_sig s = true -> base c = s ->
+  (forall xs t, tlen t = Some 0 -> bind_ok s (pargs c ++ xs) t (call c (map PV xs)))
+  /\ (forall lead t, (tlen t = None -> is_variadic s = true) ->
+        bind_ok s (pargs c ++ lead) t (fst (apply t false c lead)))
+  /\ (forall lead t L, tlen t = Some L -> bind_ok s (pargs c ++ lead) t (fst (apply t true c lead))).
+Proof. exact (@bind_correct). Qed.
+
+(** an arity error is the outcome exactly when no arity matches, and then no body started;
+    a started body is that of the chosen arity; no sentinel leaks, nothing diverges *)
+Theorem C08_no_arity_error_after_body_starts : forall (A : Type) (s : sig) (c : callee A),
+  wf_sig s = true -> base c = s ->
+  forall lead t via_var, (tlen t = None -> is_variadic s = true /\ via_var = false) ->
+    let r := fst (apply t via_var c lead) in
+    ((exists e, r = RArityErr e) <-> forall ar, ~ matches s (total (pargs c ++ lead) t) ar)
+    /\ (forall ar ps rv, r = RBound ar ps rv -> choose s (total (pargs c ++ lead) t) = Some ar)
+    /\ r <> RLeak /\ r <> RDiverge.
+Proof. exact (@no_arity_error_after_body_starts). Qed.
+(** the dispatcher never lets CPython's TypeError escape from the arity function it selected *)
+Theorem C08_dispatcher_selects_a_fitting_arity : forall (A : Type) (s : sig) (args : list (parg A)),
+  dispatch s args <> RArityErr TypeErr.
+Proof. exact (@dispatch_no_typeerror). Qed.
+
+(** apply: tail elements realized when the body starts = min(L, (M - k) + 1), k = number of
+    arguments before the tail (partial ones included), M the variadic arity's fixed count *)
+Theorem C08_apply_forces_exactly : forall (A : Type) (s : sig) (c : callee A) lead t,
+  base c = s -> is_variadic s = true ->
+  snd (apply t false c lead) = clamp t ((max_fixed s - length (pargs c ++ lead)) + 1).
+Proof. exact (@apply_forces_exactly). Qed.
+Theorem C08_apply_forces_at_most : forall (A : Type) (s : sig) (c : callee A) m lead t,
+  wf_sig s = true -> base c = s -> variadic s = Some m ->
+  let k := length (pargs c ++ lead) in
+  let forced := snd (apply t false c lead) in
+  forced <= force_bound m k
+  /\ (forall a, choose s (total (pargs c ++ lead) t) = Some (AFix a) -> forced <= force_bound a k)
+  /\ (match tlen t with Some L => forced <= L | None => True end).
+Proof. exact (@apply_forces_at_most). Qed.
+(** the true minimum: with k <= m it is met exactly; with k > m nothing needs to be realized
+    and the code realizes min(L, 1) (the emptiness test of `apply`), still within the bound *)
+Theorem C08_apply_forces_vs_minimum : forall (A : Type) (s : sig) (c : callee A) m lead t,
+  wf_sig s = true -> base c = s -> variadic s = Some m ->
+  let k := length (pargs c ++ lead) in
+  let forced := snd (apply t false c lead) in
+  (k <= m -> forced = force_needed m k (tlen t))
+  /\ (m < k -> force_needed m k (tlen t) = 0 /\ forced = clamp t 1).
+Proof. exact (@apply_forces_vs_needed). Qed.
+
+(** partial: the apply_to of a (nested) partial captures M - p, keeps :rest, and calls f with
+    the pre-supplied arguments first; at the level of the spec this is the shifted signature *)
+Theorem C08_partial_arities : forall (A : Type) (c : callee A),
+  apply_M c = max_fixed (base c) - length (pargs c)
+  /\ snd (arities c) = is_variadic (base c)
+  /\ forall args, call c args = call_fn (base c) (map PV (pargs c) ++ args).
+Proof. exact (@partial_arities). Qed.
+Theorem C08_partial_is_shifted_signature : forall s p n, wf_sig s = true ->
+  choose (shift_sig s p) (Some n) = option_map (shift_arity p) (choose s (Some (p + n))).
+Proof. exact choose_shift. Qed.
+Theorem C08_partial_reported_arities_partial : forall (A : Type) (s : sig) (pa : list A),
+  partial_report_ok s (length pa) = true ->
+  arities (CPartial (CFn s) pa) = (all_counts (shift_sig s (length pa)), is_variadic s).
+Proof. exact (@partial_reported_partial). Qed.
+Theorem C08_partial_reported_arities_refuted :
+  exists (s : sig) (pa : list unit),
+    wf_sig s = true
+    /\ In 0 (all_counts (shift_sig s (length pa)))
+    /\ ~ In 0 (fst (arities (CPartial (CFn s) pa)))
+    /\ call (CPartial (CFn s) pa) [] = RBound (AFix 1) pa RestNil.
+Proof. exact partial_reported_refuted. Qed.
+
+(** apply through the Var is eager (finite tails are covered by C08_bind_correct) *)
+Theorem C08_apply_via_var_refuted :
+  exists (s : sig) (t : tail nat), wf_sig s = true /\ is_variadic s = true /\ tlen t = None
+    /\ fst (apply t true (CFn s) []) = RDiverge
+    /\ fst (apply t false (CFn s) []) = RBound (ARest 0) [] (RestSeq [] (Some 0))
+    /\ exists t6 : tail nat, tlen t6 = Some 6 /\ snd (apply t6 true (CFn s) []) = 6 /\ force_bound 0 0 = 1.
+Proof. exact apply_via_var_refuted. Qed.
+
+(** recur: re-binding *)
+Theorem C08_recur_rebinds_partial : forall (s : sig) (ar : arity) (vs : list rval),
+  arity_of s ar -> recur_legal ar vs -> recur_safe s ar vs = true -> recur_ok ar vs (recur_step s ar vs).
+Proof. exact recur_rebinds_partial. Qed.
+Theorem C08_recur_rebinds_refuted :
+  (exists s ar vs, wf_sig s = true /\ arity_of s ar /\ recur_legal ar vs
+      /\ recur_step s ar vs = RBound (ARest 0) [] (RestSeq [VNil] None) /\ ~ recur_ok ar vs (recur_step s ar vs))
+  /\ (exists s ar vs, wf_sig s = true /\ arity_of s ar /\ recur_legal ar vs
+      /\ recur_step s ar vs = RDiverge /\ ~ recur_ok ar vs (recur_step s ar vs))
+  /\ (exists s ar vs, wf_sig s = true /\ arity_of s ar /\ recur_legal ar vs
+      /\ recur_step s ar vs = RBound (ARest 1) [VAtom 1%N] (RestSeq [VVec [7%N; 8%N]] None)
+      /\ ~ recur_ok ar vs (recur_step s ar vs))
+  /\ (exists s ar vs, wf_sig s = true /\ arity_of s ar /\ recur_legal ar vs
+      /\ recur_step s ar vs = RArityErr TypeErr /\ ~ recur_ok ar vs (recur_step s ar vs))
+  /\ (exists s ar vs, wf_sig s = true /\ arity_of s ar /\ recur_legal ar vs
+      /\ recur_step s ar vs = RBound (AFix 2) [VAtom 1%N; VAtom 7%N] RestNil
+      /\ ~ recur_ok ar vs (recur_step s ar vs)).
+Proof. exact recur_rebinds_refuted. Qed.
+(** for recur, "an arity error before any body code runs" fails: the error of the 4th witness
+    is raised by the trampoline after the arity's body has run; not under the guard *)
+Theorem C08_no_arity_error_after_body_starts_recur_refuted :
+  exists s ar vs, wf_sig s = true /\ arity_of s ar /\ recur_legal ar vs
+    /\ recur_step s ar vs = RArityErr TypeErr.
+Proof. exact recur_arity_error_after_body_refuted. Qed.
+Theorem C08_no_arity_error_after_body_starts_recur_partial : forall (s : sig) (ar : arity) (vs : list rval),
+  arity_of s ar -> recur_legal ar vs -> recur_safe s ar vs = true ->
+  forall e, recur_step s ar vs <> RArityErr e.
+Proof. exact recur_no_arity_error_partial. Qed.
+
+(** recur: stack.  Any body, any iteration count n: each of the n+1 executions of the body
+    sees depth(caller) + 0 (loop) / 2 (single-arity fn) / 3 (multi-arity fn) *)
+Theorem C08_recur_constant_stack : forall (again : nat -> bool) (k : rkind) (host : list frame) (n fuel : nat),
+  (forall j, j < n -> again j = true) -> again n = false -> n < fuel ->
+  run_kind k again fuel host = Some (repeat (length host + rel_depth k) (S n)).
+Proof. exact recur_constant_stack. Qed.
+Theorem C08_selfcall_stack_grows : forall (again : nat -> bool) (host : list frame) (n fuel : nat),
+  (forall j, j < n -> again j = true) -> again n = false -> n < fuel ->
+  selfcall_run again fuel host 0 [] = Some (map (fun d => S (length host) + d) (seq 0 (S n))).
+Proof. exact selfcall_stack_grows. Qed.
+
+(** non-vacuity *)
+Example C08_bind_nonvacuous :
+  let s := mkSig [1] (Some 3) in
+  let c := CPartial (CFn s) [200] in
+  let t := mkTail None (fun i => i) in
+  wf_sig s = true /\ apply t false c [100] = (RBound (ARest 3) [200; 100; 0] (RestSeq [] (Some 1)), 2).
+Proof. exact bind_nonvacuous. Qed.
+Example C08_recur_rebinds_nonvacuous :
+  let s := mkSig [0; 1] (Some 1) in
+  let vs := [VAtom 5%N; VSeq [7%N; 8%N]] in
+  wf_sig s = true /\ recur_legal (ARest 1) vs /\ recur_safe s (ARest 1) vs = true
+  /\ recur_step s (ARest 1) vs = RBound (ARest 1) [VAtom 5%N] (RestSeq [VAtom 7%N; VAtom 8%N] None).
+Proof. exact recur_rebinds_nonvacuous. Qed.
+Example C08_recur_stack_nonvacuous :
+  run_kind KFnMulti (fun i => i <? 5) 100 [FHost; FHost] = Some [5; 5; 5; 5; 5; 5]
+  /\ selfcall_run (fun i => i <? 5) 100 [FHost; FHost] 0 [] = Some [3; 4; 5; 6; 7; 8].
+Proof. exact recur_stack_nonvacuous. Qed.
+
+Print Assumptions C08_table_dispatch_cmp.
+Print Assumptions C08_table_shapes.
+Print Assumptions C08_chosen_arity_unique.
+Print Assumptions C08_bind_correct.
+Print Assumptions C08_no_arity_error_after_body_starts.
+Print Assumptions C08_dispatcher_selects_a_fitting_arity.
+Print Assumptions C08_apply_forces_exactly.
+Print Assumptions C08_apply_forces_at_most.
+Print Assumptions C08_apply_forces_vs_minimum.
+Print Assumptions C08_partial_arities.
+Print Assumptions C08_partial_is_shifted_signature.
+Print Assumptions C08_partial_reported_arities_partial.
+Print Assumptions C08_partial_reported_arities_refuted.
+Print Assumptions C08_apply_via_var_refuted.
+Print Assumptions C08_recur_rebinds_partial.
+Print Assumptions C08_recur_rebinds_refuted.
+Print Assumptions C08_no_arity_error_after_body_starts_recur_refuted.
+Print Assumptions C08_no_arity_error_after_body_starts_recur_partial.
+Print Assumptions C08_recur_constant_stack.
+Print Assumptions C08_selfcall_stack_grows.
+Print Assumptions C08_bind_nonvacuous.
+Print Assumptions C08_recur_rebinds_nonvacuous.
+Print Assumptions C08_recur_stack_nonvacuous.
